@@ -13,7 +13,7 @@
 #define VERIF_CTLS 1
 #elif defined( SPACE_CONV )
 #define VERIF_K 4
-#define VERIF_GROUPS ( T::G_CORE | T::G_CONV | T::G_CONV3 | T::G_REP | T::G_HOLE )
+#define VERIF_GROUPS ( T::G_CORE | T::G_CONV | T::G_CONV3 | T::G_REP | T::G_HOLE | T::G_REMATCH )
 #define VERIF_FAMS 1
 #define VERIF_CTLS 1
 #elif defined( SPACE_EXC )
@@ -36,6 +36,17 @@
 #define VERIF_FAMS ( 32 | 128 )
 #endif
 #define VERIF_CTLS ( 1 << ACT_CTL )
+#elif defined( SPACE_LIMITS )
+#define VERIF_K 3
+#define VERIF_GROUPS ( T::G_CORE | T::G_CONV | T::G_ATOM2 )
+#define VERIF_FAMS ( ( 1 << 8 ) | ( 1 << 9 ) | ( 1 << 10 ) | ( 1 << 11 ) )
+#define VERIF_CTLS 1
+#define VERIF_DEPTH_INPUT
+#elif defined( SPACE_SCOPES )
+#define VERIF_K 4
+#define VERIF_GROUPS ( T::G_CORE | T::G_ACT | T::G_STATE )
+#define VERIF_FAMS ( ( 1 << 12 ) | ( 1 << 13 ) | ( 1 << 14 ) )
+#define VERIF_CTLS 8
 #elif defined( SPACE_ATOMS )
 // library atoms (ascii convenience + contrib) under every one-level context, on guard-paged inputs; -DATOMS_LAZY=0|1
 #define VERIF_K 3
@@ -101,7 +112,8 @@ struct Space
 {
    const char* result_prop = "C01";
    const char* exc_prop = "C05";
-   bool check_hooks = false, check_actions = true, check_positions = false;
+   bool check_hooks = false, check_actions = true, check_positions = false, check_scopes = false;
+   const char* hook_prop = "C03";
    long fuel = 3000;     // rule entries allowed to the implementation per execution
    long ref_fuel = 500;   // backstop for the reference (true divergence is detected structurally)
    long max_exec_per_prog = 2000000;
@@ -285,6 +297,46 @@ struct Space
 #else
          p.cfgs = cfg_product( { 7 }, { ACT_CTL }, { 1 }, { 1, 0 } );
 #endif
+         phases.push_back( p );
+      }
+#elif defined( SPACE_LIMITS )
+      result_prop = "C18";
+      exc_prop = "C18";
+      hook_prop = "C18";
+      check_actions = false;
+      {
+         Phase p;
+         p.name = "byte_limits";
+         p.root = { CORE_OPS, "MUST", "UNTIL1" };
+         p.inner = { "ANY", "ONE_A", "STRING_AB", "EOF_", "BYTES2", "EVERYTHING", "SUCCESS", CORE_OPS, "MUST", "UNTIL1" };
+         p.N = 3;
+         p.L = thorough ? 5 : 4;
+         p.sigma = "ab";
+         p.buf_modes = { 1 };
+         p.cfgs = cfg_product( { 8, 9 }, { 0 }, { 1 }, { 1, 0 } );
+         phases.push_back( p );
+         Phase q = p;
+         q.name = "depth_limits";
+         q.inner = { "ANY", "ONE_A", "EOF_", "SUCCESS", CORE_OPS, "MUST" };
+         q.cfgs = cfg_product( { 10, 11 }, { 0 }, { 1 }, { 1, 0 } );
+         q.buf_modes = { 0 };
+         phases.push_back( q );
+      }
+#elif defined( SPACE_SCOPES )
+      result_prop = "C13";
+      exc_prop = "C13";
+      check_actions = false;
+      check_scopes = true;
+      {
+         Phase p;
+         p.name = "state_action_control_scopes";
+         p.root = { CORE_OPS, "STATE", "ENABLE", "DISABLE" };
+         p.inner = { "ANY", "ONE_A", "EOF_", CORE_OPS, "STATE", "DISABLE" };
+         p.N = thorough ? 4 : 4;
+         p.L = thorough ? 3 : 2;
+         p.sigma = "ab";
+         p.flat_inner = false;
+         p.cfgs = cfg_product( { 12, 13, 14 }, { 3 }, { 1, 0 }, { 1 } );
          phases.push_back( p );
       }
 #elif defined( SPACE_ATOMS )
